@@ -963,3 +963,128 @@ func HarnessC03Patterns() {
 	verifAssert(errs.valid == (place == 0), "invalid-pattern-is-an-error-and-only-then")
 	verifReach("end")
 }
+
+// HarnessC09Places: ONE default-and-example pair, accepted or rejected by its own definition,
+// placed by the solver in one of the places a specification can carry them; the defaults traversal
+// must report an error, and the examples traversal a warning, exactly when the value is rejected.
+func HarnessC09Places() {
+	place := verifChoose(15)
+	bad := verifBool()
+	num := func() interface{} { // for {type: number, maximum: 2}
+		if bad {
+			return 3.0
+		}
+		return 1.0
+	}
+	arr := func() interface{} { // for an array of integers with maxItems 2
+		if bad {
+			if verifBool() {
+				return []interface{}{1.0, "two"}
+			}
+			return []interface{}{1.0, 2.0, 3.0}
+		}
+		return []interface{}{1.0, 2.0}
+	}
+	numSchema := func() *spec.Schema {
+		s := numSchemaMax(2, num())
+		return &s
+	}
+	intItems := func() *spec.Items {
+		it := spec.NewItems().Typed("integer", "")
+		return it
+	}
+	op := &spec.Operation{}
+	op.ID = "op"
+	op.Responses = &spec.Responses{}
+	ok := spec.Response{}
+	ok.Description = "ok"
+	dflt := spec.Response{}
+	dflt.Description = "default"
+	sw := &spec.Swagger{}
+	exampleOnly, defaultOnly := false, false
+	switch place {
+	case 0: // simple parameter
+		p := spec.QueryParam("q").Typed("number", "")
+		p.Maximum = ptrF(2)
+		p.Default, p.Example = num(), num()
+		op.Parameters = []spec.Parameter{*p}
+	case 1: // array parameter: its own default, next to items
+		p := spec.QueryParam("q").CollectionOf(intItems(), "csv")
+		p.MaxItems = ptrI(2)
+		p.Default, p.Example = arr(), arr()
+		op.Parameters = []spec.Parameter{*p}
+	case 2: // items of a parameter
+		it := spec.NewItems().Typed("number", "")
+		it.Maximum = ptrF(2)
+		it.Default, it.Example = num(), num()
+		op.Parameters = []spec.Parameter{*spec.QueryParam("q").CollectionOf(it, "csv")}
+	case 3: // body parameter schema
+		op.Parameters = []spec.Parameter{*spec.BodyParam("b", numSchema())}
+	case 4: // scalar header of a status-code response
+		h := spec.ResponseHeader().Typed("number", "")
+		h.Maximum = ptrF(2)
+		h.Default, h.Example = num(), num()
+		ok.Headers = map[string]spec.Header{"X": *h}
+	case 5: // array header: its own default, next to items
+		h := spec.ResponseHeader().CollectionOf(intItems(), "csv")
+		h.MaxItems = ptrI(2)
+		h.Default, h.Example = arr(), arr()
+		ok.Headers = map[string]spec.Header{"X": *h}
+	case 6: // items of a header
+		it := spec.NewItems().Typed("number", "")
+		it.Maximum = ptrF(2)
+		it.Default, it.Example = num(), num()
+		ok.Headers = map[string]spec.Header{"X": *spec.ResponseHeader().CollectionOf(it, "csv")}
+	case 7: // schema of a status-code response
+		ok.Schema = numSchema()
+	case 8: // schema of the default response
+		dflt.Schema = numSchema()
+	case 9: // header of the default response
+		h := spec.ResponseHeader().Typed("number", "")
+		h.Maximum = ptrF(2)
+		h.Default, h.Example = num(), num()
+		dflt.Headers = map[string]spec.Header{"X": *h}
+	case 10: // per-media-type example of a response, judged by the response schema
+		sch := schemaOfType("number")
+		sch.Maximum = ptrF(2)
+		ok.Schema = &sch
+		ok.Examples = map[string]interface{}{"application/json": num()}
+		exampleOnly = true
+	case 11: // definition: property
+		d := spec.Schema{}
+		d.Properties = map[string]spec.Schema{"p": *numSchema()}
+		sw.Definitions = spec.Definitions{"D": d}
+	case 12: // definition: additionalProperties
+		d := spec.Schema{}
+		d.AdditionalProperties = &spec.SchemaOrBool{Allows: true, Schema: numSchema()}
+		sw.Definitions = spec.Definitions{"D": d}
+	case 13: // definition: second position of tuple items
+		d := spec.Schema{}
+		d.Items = &spec.SchemaOrArray{Schemas: []spec.Schema{{}, *numSchema()}}
+		sw.Definitions = spec.Definitions{"D": d}
+	default: // definition: allOf member of a property
+		in := spec.Schema{}
+		in.AllOf = []spec.Schema{{}, *numSchema()}
+		d := spec.Schema{}
+		d.Properties = map[string]spec.Schema{"p": in}
+		sw.Definitions = spec.Definitions{"D": d}
+	}
+	_ = defaultOnly
+	op.Responses.StatusCodeResponses = map[int]spec.Response{200: ok}
+	if place == 8 || place == 9 || verifBool() {
+		op.Responses.Default = &dflt
+	}
+	ops := map[string]map[string]*spec.Operation{"GET": {"/p": op}}
+	s := newSpecHarnessValidator(sw, ops, true, true)
+	d := &defaultValidator{SpecValidator: s, schemaOptions: s.schemaOptions}
+	gotD := outcomeOfResult(d.Validate())
+	ex := &exampleValidator{SpecValidator: s, schemaOptions: s.schemaOptions}
+	gotE := outcomeOfResult(ex.Validate())
+	verifObserve("defaults-valid", gotD.valid)
+	if !exampleOnly {
+		verifAssert(gotD.valid == !bad, "rejected-default-is-an-error-and-only-then")
+	}
+	verifAssert(gotE.valid, "examples-never-make-errors")
+	verifAssert((len(gotE.warns) > 0) == bad, "rejected-example-is-a-warning-and-only-then")
+	verifReach("end")
+}
